@@ -96,7 +96,9 @@ class BaseGotranODECodePrinter(StrPrinter):
         return "1"
 
     def _print_Piecewise(self, expr):
-        conds, exprs = _print_Piecewise(self, expr)
+        # A saved model is the model itself, not a simplified one (sympy uses e.g. the
+        # condition Eq(x, y) to rewrite (x*y)**2 as y**4, which has another derivative)
+        conds, exprs = _print_Piecewise(self, expr, simplify=False)
 
         result = []
 
